@@ -327,6 +327,30 @@ def high_index_history(ctx, rnd, tid, n=300):
     return {"id": tid, "n": n, "events": events}
 
 
+def output_source_history(ctx, rnd, tid):
+    """The Output (module number 0) in the role of a source: modules whose only input is the Output, through save + load
+    in every slot-chunk variant."""
+    api, _, _ = _rv()
+    n = 5
+    p = make_project(n, rnd, simple_classes()[:4])
+    events = []
+
+    def one(A, B):
+        out = request(p, "method", A, B, None, toggle=0)
+        events.append({"op": "connect", "via": "method", "A": A, "B": B, "outcome": out, "post": get_tables(p)})
+    one([{"m": 0, "neg": False}], [{"m": 1, "neg": False}])
+    one([{"m": 0, "neg": False}], [{"m": 2, "neg": False}, {"m": 3, "neg": False}])
+    one([{"m": 4, "neg": False}], [{"m": 3, "neg": False}])
+    one([{"m": 0, "neg": False}], [{"m": 0, "neg": False}])
+    for variant in ("canonical", "never", "always"):
+        out, q = save_load(p, variant)
+        events.append({"op": "saveload", "variant": variant, "sub": [], "outcome": out if q is None else "ok",
+                       "post": get_tables(q) if q is not None and len(q.modules) == n else get_tables(p)})
+        if q is not None and len(q.modules) == n:
+            p = q
+    return {"id": tid, "n": n, "events": events}
+
+
 def hub_history(ctx, rnd, tid, cls, fan=20):
     """One source of the given class (e.g. a MultiCtl) linked to `fan` destinations, some links freed and re-made, then
     save + load with and without slot chunks."""
